@@ -32,3 +32,9 @@ package net
 //@ func (*Handshake).Read
 //@   props C10 C16
 //@   requires reader != nil
+
+//@ func extractTLSBinding
+//@   props C10 C16
+//@   requires typeIs(conn, "*tls.Conn") && dyn(conn, "*tls.Conn") != nil
+//@   modifies nothing
+//@   ensures [exporter] string(result) == tlsExporter(conn, "MPC", "MPC", 32)
